@@ -430,10 +430,23 @@ def check(model, rep):
         check_run(model, rep)
     except CannotDecide as e:
         rep.cannot('C12.cont', 'Solver.run', str(e))
+    # "continuing for T2 ... yields the same time axis as one run of T1+T2": the number of instants of each leg must be additive,
+    # which is C11's count / grid rule (round(T/dt) instants dt apart from the last recorded one)
+    from sa.core import Report
+    from checks import c11
+    dep = Report('C11')
+    try:
+        c11.check(model, dep)
+        rep.absorb(dep, {'C11.grid': 'C12.cont.grid', 'C11.count': 'C12.cont.count'})
+    except CannotDecide as e:
+        rep.cannot('C12.cont.grid', 'Solver.run', str(e))
     check_reset(model, rep)
     check_stateless(model, rep)
     check_one_shot_state(model, rep)
     check_memoised(model, rep)
+    from sa.aliases import descriptor_findings
+    for cname, attr, dcls, mod_, ln, detail in descriptor_findings(model):
+        rep.violation('C12.reset', f'{cname}.{attr}:descriptor', detail, f'{mod_}:{ln}')
     from sa.aliases import alias_findings
     found, nscan = alias_findings(model)
     for cname, f, ln, mod_, detail in found:
